@@ -175,6 +175,12 @@ func (d *driver) report(all []*result, loadTime float64) int {
 		traces += rp.runs
 		rp.cleanup()
 	}
+	if d.validation != nil {
+		traces += d.validation.runs
+		for _, m := range d.validation.mismatches {
+			fmt.Printf("TRANSLATOR-MISMATCH: %s\n", trunc(m, 700))
+		}
+	}
 	// vacuity: every non-witness harness must complete at least one path reaching "end"
 	machinery := false
 	for h, n := range instancesPerHarness {
@@ -242,7 +248,12 @@ func (d *driver) report(all []*result, loadTime float64) int {
 	if len(samples) == 0 {
 		samples = append(samples, map[string]any{"note": "no completed path"})
 	}
+	var tv any
+	if d.validation != nil {
+		tv = map[string]any{"differential_runs": d.validation.runs, "mismatches": len(d.validation.mismatches), "samples": d.validation.samples, "skipped": d.validation.skipped}
+	}
 	coverage := map[string]any{
+		"translator_validation":         tv,
 		"states":                        states,
 		"transitions":                   transitions,
 		"traces_validated_against_impl": traces,
@@ -292,6 +303,10 @@ func (d *driver) report(all []*result, loadTime float64) int {
 	os.WriteFile(filepath.Join(d.verif, "evidence", d.prop+".json"), b, 0o644)
 	fmt.Printf("%s tier=%s: instances=%d paths=%d queries=%d proved-assertions=%d violations=%d known=%d unconfirmed=%d inconclusive=%d wall=%.1fs\n",
 		d.prop, d.tier, len(all), states, transitions, proved, nViol, nKnown, nUnconfirmed, len(inconclusive), time.Since(d.start).Seconds())
+	if d.validation != nil && len(d.validation.mismatches) > 0 && exit == 0 {
+		fmt.Println("BROKEN-CHECK: interpreter and native build disagree on a concrete run (see TRANSLATOR-MISMATCH); verdict withheld")
+		return 2
+	}
 	if machinery && exit == 0 {
 		return 2
 	}
